@@ -69,11 +69,20 @@ def run(tier, seed):
         for mx in range(0, 7):
             cases.append((True, mx, urls[0], table))
         cases.append((False, 5, urls[0], table))
+    # the same resource under different spellings (no trailing slash, upper-case host, explicit default port): every graph over them
+    sp = ["gemini://h", "gemini://H/", "gemini://h:1965/"]
+    spopts = [("20", (20, "text/gemini", "body"))] + [("30>" + u, (30, u, "")) for u in sp]
+    for combo in itertools.product(range(len(spopts)), repeat=3):
+        table = {u: spopts[i][1] for u, i in zip(sp, combo)}
+        for mx in (0, 1, 2, 5):
+            for start in sp:
+                cases.append((True, mx, start, table))
     res.exhaustive = True
     nrand = 2000 if tier == "quick" else 40000
     for _ in range(nrand):
         k = rng.randint(1, 10)
-        us = ["gemini://h%d.example/%d" % (rng.randint(0, 2), i) for i in range(k)]
+        us = [rng.choice(["gemini://h%d.example/%d", "gemini://H%d.Example/%d", "gemini://h%d.example:1965/%d"]) % (rng.randint(0, 2), i) for i in range(k)]
+        if rng.random() < 0.3: us[0] = "gemini://h0.example"
         o = targets(us)
         table = {}
         for u in us:
